@@ -49,7 +49,7 @@ theorem foldl_spec (cfg : Cfg) (items : List Item) :
     ∀ s : Served, s.alive = true → s.closed = false →
       items.foldl (serveOne .repaired cfg) s =
         { alive := !dies cfg items,
-          closed := (live cfg items).any (closes cfg),
+          closed := (live cfg items).any (closes cfg) || dies cfg items,
           replies := s.replies ++
             ((live cfg items).filter fun it => !it.batch).flatMap (expectedReply cfg),
           batchParts := s.batchParts ++
@@ -65,7 +65,8 @@ theorem foldl_spec (cfg : Cfg) (items : List Item) :
     simp only [List.foldl_cons]
     by_cases he : escapes cfg it = true
     · -- the exception leaves the function: message processing dies
-      have h1 : serveOne .repaired cfg s it = { s with alive := false, lost := s.lost ++ [it.id] } := by
+      have h1 : serveOne .repaired cfg s it =
+          { s with alive := false, closed := true, lost := s.lost ++ [it.id] } := by
         have : (throttled .repaired cfg it.outcome it.kind).escapes = true := he
         simp [serveOne, ha, hc, this]
       rw [h1, foldl_cut _ _ _ _ (Or.inl rfl)]
